@@ -193,6 +193,27 @@ def compare(impl_payload, model_payload, line=""):
             elif sat != "none":
                 b.append(("sat", "sat_point %s for an unsatisfiable function" % sat))
         if "fused" in I: b.append(("fused", "iterator yields again after exhaustion"))
+        if "nx.dom" in I:
+            # the next() protocol: the lists above (each already judged against the specification), item by item,
+            # then None for ever; nth / count / last as Iterator defines them
+            k = 2 ** n + 2
+            def want(items, sep):
+                return sep.join(list(items) + ["~"] * (k - len(items)))
+            raw = lambda key: [] if I.get(key, "-") in ("-", "") else I[key].split(",")
+            if I["nx.dom"] != want(raw("dom"), ","): b.append(("nx.dom", "stepping the domain iterator does not give the domain, then None"))
+            if I.get("nx.img") != want(list(img), ""): b.append(("nx.img", "stepping the image iterator does not give the image, then None"))
+            if I.get("nx.rel") != want(raw("rel"), ","): b.append(("nx.rel", "stepping the relation iterator does not give the relation, then None"))
+            if I.get("nx.sup") != want(raw("sup"), ","): b.append(("nx.sup", "stepping the support iterator does not give the support, then None"))
+            def at(l, i): return l[i] if i < len(l) else "~"
+            for key, l in (("nth.dom", raw("dom")), ("nth.rel", raw("rel"))):
+                exp = ";".join("%s/%s" % (at(l, i), at(l, i + 1)) for i in (n, 2 ** n - 1))
+                if I.get(key) != exp: b.append((key, "nth(i) then next() gives %s, the enumeration says %s" % (I.get(key), exp)))
+            rd = raw("dom")[n + 2:]
+            exp = "%d/%s;%d" % (len(rd), rd[-1] if rd else "~", len(img[n + 2:]))
+            if I.get("rest") != exp: b.append(("rest", "count()/last() of a partly consumed iterator give %s, %s is left" % (I.get("rest"), exp)))
+            if "sh" in I: b.append(("sh", "size_hint() does not bound the number of items that are really left"))
+            if I.get("cnt.img") != str(len(img)): b.append(("cnt.img", "count() of the image is %s for %d values" % (I.get("cnt.img"), len(img))))
+            if I.get("last.dom") != at(raw("dom"), len(raw("dom")) - 1 if raw("dom") else 0): b.append(("last.dom", "last() of the domain is %s" % I.get("last.dom")))
     if "s.acc" in M and I.get("acc") != M["s.acc"]:
         b.append(("acc", "%s, the reference grammar %s" % ("accepted" if I.get("acc") == "1" else "rejected (or crashed)", "accepts" if M["s.acc"] == "1" else "rejects")))
     if "s.parse" in M and I.get("parse") != M["s.parse"]:
@@ -208,6 +229,8 @@ def compare(impl_payload, model_payload, line=""):
         b.append(("shape", "normal forms of a constant-free expression do not satisfy is_nnf / is_cnf / is_dnf: %s" % I.get("shape")))
     if "s.fresh" in M and I.get("fresh") != M["s.fresh"]:
         b.append(("fresh", "a freshly built object of the same function over the same inputs is told apart: flags %s (structure/node count, equivalent x2, implied x2)" % I.get("fresh")))
+    if I.get("pure") == "0":
+        b.append(("pure", "a register no longer equals (==) the clone taken before this call, or its Debug text changed: the call altered an operand"))
     if I.get("det") == "0":
         b.append(("det", "the same call made twice in one process gave two different results"))
     if "s.val" in M and I.get("val") != M["s.val"]:
